@@ -30,7 +30,10 @@ func main() {
 
 	scanner := bufio.NewScanner(os.Stdin)
 	for !engine.Quit {
-		scanner.Scan()
+		if !scanner.Scan() {
+			// end of input (GUI closed the pipe or died) - nothing more will ever arrive
+			break
+		}
 		engine.ParseInputLine(scanner.Text())
 	}
 }
